@@ -443,6 +443,26 @@ func runScenario(t *testing.T, sc Scenario) (ex execution) {
 			}
 		}
 
+		// warm-up: the first WarmSubs subscribers subscribe without interference, so that the
+		// schedule proper starts with registered subscribers
+		if sc.WarmSubs > 0 {
+			w.mu.Lock()
+			w.free = true
+			w.mu.Unlock()
+			n := sc.WarmSubs
+			if n > len(sc.Subs) {
+				n = len(sc.Subs)
+			}
+			for i := 0; i < n; i++ {
+				actions[i].run()
+				synctest.Wait()
+			}
+			actions = actions[n:]
+			w.mu.Lock()
+			w.free = false
+			w.mu.Unlock()
+		}
+
 		const maxSteps = 700
 		step := 0
 		for ; step < maxSteps; step++ {
